@@ -28,8 +28,8 @@ BIN = {'acc-thr': (BIN_LOGITS, BIN_LABELS, THRESHOLD),
        'acc-thrn': ([-2.0, -1.0, -0.5], [0, 0, 1], -1.0)}    # correct, wrong at the boundary, correct
 
 VARIANTS_QUICK = ['avg', 'avg-scalar', 'acc', 'acc-thr', 'acc-thr0', 'acc-thrn', 'welford',
-                  'welford-scalar', 'multi']
-VARIANTS_THOROUGH = VARIANTS_QUICK + ['avg-2d', 'welford-2d', 'avg-int']
+                  'welford-scalar', 'multi', 'avg-2d']
+VARIANTS_THOROUGH = VARIANTS_QUICK + ['welford-2d', 'avg-int']
 
 
 def make_metric(variant):
